@@ -16,7 +16,7 @@ FAULT_DIMENSION = "beyond_horizon schedules at any call incl. the last period; m
 ASSUMPTIONS = ["pilot values in scripts are valid for each EVSE class (C13 covers invalid ones)",
                "EVSEs with a continuous range excluding 0 are not generated (an uncovered period would be invalid)"]
 
-PROFILE = world.profile(second_life=0.15, party={"scripted": 1}, faults={"crash": 0.3, "beyond_horizon": 0.5, "malformed": 0.4},
+PROFILE = world.profile(second_life=0.15, party={"scripted": 1}, evse_kinds={"cont": 4, "dead": 2, "finite": 3, "cont_inf": 1, "cont_neg": 1}, faults={"crash": 0.3, "beyond_horizon": 0.5, "malformed": 0.4},
                         resume_modes=["rerun", "rerun", "json_str", "json_buf"], max_recompute=[None, None, 1, 2, 3, 5], extra_recompute=0.6)
 
 
